@@ -57,6 +57,11 @@ T = {
          "The sanitizer is a per-token function, so hand-built one-element streams carrying every short attribute value cover its decision domain for URLs and CSS; parsed streams cover element/attribute filtering, comments and namespaced attributes. Each output is checked against the allow-lists actually configured (default, each protocol removed, data types emptied, restricted elements / attributes, empty).",
          "ref/urlscheme.py models the WHATWG URL scheme extraction, it is not a browser; the ping attribute is treated as a single URL; values outside the macro alphabets are not covered",
          "6/C09"),
+ "C10": ("model_checking",
+         "explicit-state BFS over a 45-letter mXSS-shaped alphabet (raw-text elements, foreign content, integration points, tables, select, noscript, comments, CDATA, escaped payloads; key = parser state + complete final tree); each explored input runs the real pipeline parse -> walk -> sanitize (default and a permissive allow-list) -> serialize (3 option sets) -> parse again (document / fragment x scripting off / on) = 48 re-parses; invariant oracle on the re-parsed tree read by direct traversal",
+         "Every input inside the bound is pushed through the whole real pipeline and the re-parsed tree must still satisfy the allow-list in force (elements with namespace, attributes, URI schemes by ref/urlscheme.py, no comments) and contain only element names the sanitizer let through or the parser implies. Violations are attributed to a root cause computed from the first tree (HTML child of a non-integration-point foreign element; escaped integration point with surviving children); anything unexplained is reported.",
+         "depth 3 (quick) / 4 (thorough) over the stated alphabet; two root causes are listed known findings; ref/urlscheme.py is a model of a browser's URL parser",
+         "6/C10"),
  "C11": ("model_checking",
          "explicit-state BFS over markup-token words, key = (suspended parser state, digest of the complete final tree); every explored word is built with etree (full tree / root element / fragment) and dom (document / documentElement / fragment), namespacing on and off, and walked by the real walkers from each start node; oracle = lint filter + own well-formedness checker + tree rebuilt from the stream == direct traversal + etree stream == dom stream",
          "Walkers are pure traversals, so coverage is counted in distinct complete trees: all trees reachable by words of eight themed alphabets up to the stated depth (document mode and one fragment container per theme) are walked 12 ways each. The rebuilt-tree oracle is independent of html5lib (direct traversal of minidom / ElementTree objects).",
